@@ -94,14 +94,18 @@ def plain(v):
 
 
 class _Canon(ast.NodeTransformer):
-    "typed method calls: positional arguments -> the keywords Python binds them to (a0, a1, k in signature order)"
+    """typed method calls: positional arguments -> the keywords Python binds them to (a0, a1, k in signature order), and
+    parameters that the call site leaves out -> the method's declared default.  The second part is what Python itself
+    does when the chain runs on the in-memory objects (the defaults belong to the object's class, which is known at
+    run time even where the library could not know it statically, e.g. behind `[v.jets(), 30][0]`); that the library
+    fills them in wherever it does know the type is C07's claim and C07's check."""
 
     def visit_Call(self, node):
-        from c01world import INT_METHODS, PARAMS
+        from c01world import INT_DEFAULTS, INT_METHODS, PARAMS
 
         self.generic_visit(node)
         names = {f for fs in INT_METHODS.values() for f in fs}
-        if isinstance(node.func, ast.Attribute) and node.func.attr in names and (node.args or node.keywords) \
+        if isinstance(node.func, ast.Attribute) and node.func.attr in names \
                 and len(node.args) <= len(PARAMS) and not any(isinstance(a, ast.Starred) for a in node.args):
             kws = {k.arg: k.value for k in node.keywords}
             if any(k is None or k not in PARAMS for k in kws):
@@ -110,8 +114,43 @@ class _Canon(ast.NodeTransformer):
                 if p in kws:
                     return node
                 kws[p] = a
-            return ast.Call(func=node.func, args=[], keywords=[ast.keyword(arg=p, value=kws[p]) for p in PARAMS if p in kws])
+            dflt = next((d for (c, f), d in INT_DEFAULTS.items() if f == node.func.attr), (0, 0, 0))
+            for p, d in zip(PARAMS, dflt):
+                kws.setdefault(p, ast.Constant(value=d))
+            return ast.Call(func=node.func, args=[], keywords=[ast.keyword(arg=p, value=kws[p]) for p in PARAMS])
         return node
+
+
+def capture_family(text: str) -> bool:
+    """the call-site pattern of the known finding (inlining is not capture avoiding): an immediately called lambda (or a
+    one-line helper) one of whose ARGUMENTS mentions a name that a lambda / comprehension INSIDE its body binds"""
+    try:
+        tree = ast.parse(text)
+    except SyntaxError:
+        return False
+    helpers = {n.name: n for n in ast.walk(tree) if isinstance(n, ast.FunctionDef) and len(n.body) == 1 and isinstance(n.body[0], ast.Return)}
+    helpers.update({t.id: n.value for n in ast.walk(tree) if isinstance(n, ast.Assign) and isinstance(n.value, ast.Lambda)
+                    for t in n.targets if isinstance(t, ast.Name)})
+    for call in ast.walk(tree):
+        if not isinstance(call, ast.Call):
+            continue
+        if isinstance(call.func, ast.Lambda):
+            body = call.func.body
+        elif isinstance(call.func, ast.Name) and call.func.id in helpers:
+            h = helpers[call.func.id]
+            body = h.body if isinstance(h, ast.Lambda) else h.body[0].value
+        else:
+            continue
+        inner = set()
+        for n in ast.walk(body):
+            if isinstance(n, ast.Lambda):
+                inner |= {a.arg for a in n.args.args}
+            elif isinstance(n, ast.comprehension):
+                inner |= {x.id for x in ast.walk(n.target) if isinstance(x, ast.Name)}
+        used = {x.id for a in list(call.args) + [k.value for k in call.keywords] for x in ast.walk(a) if isinstance(x, ast.Name)}
+        if inner & used:
+            return True
+    return False
 
 
 def canon_typed(a):
@@ -243,7 +282,8 @@ def check_program(ctx, text, typed, meta, reqs, keep, DS, TDS, received, key):
                     if have != want[i]:
                         ctx.violate({**case, "stage": which, "query": ast.unparse(q)[:600], "dataset": val_sexpr(wd)[:800], "direct_python": repr(want[i])[:300],
                                      "ast_in_python": repr(have)[:300]},
-                                    f"the {which} AST evaluated by CPython differs from the chain run directly", key=key)
+                                    f"the {which} AST evaluated by CPython differs from the chain run directly",
+                                    key=key or ("C01-name-capture-on-inlining" if capture_family(text) else None))
                         break
                     try:
                         wv = val_sexpr(want[i])
